@@ -222,7 +222,8 @@ def manager_history(case):
     wins = ()
     if case.get('window'):
         w = case['window']
-        wins = [{'file': 'download.py', 'line': w['lineno'], 'nth': w.get('nth', 0), 'action': 'pause', 'name': w['name'], 'wait': 0.2}]
+        wins = [{'file': 'download.py', 'line': w['lineno'], 'nth': w.get('nth', 0), 'action': 'pause', 'name': w['name'], 'wait': 0.2,
+                 'rmw': bool(w.get('rmw'))}]
     inj = yieldinj.Injector(p=case.get('yield_p', 0.2), seed=case['seed'], files=['download.py', 'futures.py'], windows=wins).install()
     try:
         if case['mode'] == 'threads':
@@ -293,6 +294,15 @@ def gen_cases(tier, seed):
             for rep in range(1 if quick else 3):
                 cases.append({'type': 'mgr', 'seed': rng.randrange(1 << 30), 'n': rng.choice([16, 40]), 'parts': rng.choice([2, 3, 5]), 'attempts': rng.choice([1, 2]),
                               'mode': 'threads', 'yield_p': 0.0, 'window': {'lineno': line[1], 'nth': nth, 'name': f'{line[0]}:{line[1]}:{line[2]}'}})
+    from .. import yieldinj as _yi
+
+    for site in _yi.rmw_sites(['download.py']):
+        if site[2].startswith(('DeferQueue.', 'DownloadNonSeekableOutputManager.')):
+            for nth in ((0, 1, 2) if quick else (0, 1, 2, 3, 5, 8)):
+                for rep in range(1 if quick else 3):
+                    cases.append({'type': 'mgr', 'seed': rng.randrange(1 << 30), 'n': rng.choice([16, 40]), 'parts': rng.choice([2, 3, 5]), 'attempts': rng.choice([1, 2]),
+                                  'mode': 'threads', 'yield_p': 0.0,
+                                  'window': {'lineno': site[1], 'nth': nth, 'name': f'rmw:{site[0]}:{site[1]}:{site[2]}', 'rmw': True}})
     # (e2e) the whole way through TransferManager.download: destinations that cannot seek given as a stream object, as the path of a
     # FIFO, and as a symbolic link to a FIFO (like /dev/stdout), parts finishing in steered orders, retried ranges, short reads
     for i in range(60 if quick else 600):
